@@ -5,6 +5,7 @@ import (
 	"fmt"
 	"sort"
 	"strings"
+	"sync"
 
 	"github.com/openziti/storage/boltz"
 	"go.etcd.io/bbolt"
@@ -247,6 +248,26 @@ func genCorruptions(r *core.Rand, e *kmodel.Engine) []*corruption {
 				}})
 		}
 	}
+	// two entities with the same unique value and NO index entry for it: the fix run indexes the first holder it meets
+	// and reports the other one as a conflict it cannot repair (it does not give up half-way)
+	if len(emps) >= 2 {
+		a, b := emps[len(emps)-1], emps[len(emps)-2]
+		if va := name(a); va != "" {
+			add(&corruption{Class: "duplicate-unique-value-unindexed", Desc: fmt.Sprintf("emps[%q].name = %q which %q holds, index entry for %q removed", b, va, a, va), Needles: [][]string{{"name", va, a}, {"name", va, b}}, Unfixable: true,
+				apply: func(tx *bbolt.Tx) error {
+					ix := bpath(tx, "stores", "indexes", "emps", "name")
+					if old := name(b); old != "" {
+						if err := ix.Delete([]byte(old)); err != nil {
+							return err
+						}
+					}
+					if err := ix.Delete([]byte(va)); err != nil {
+						return err
+					}
+					return bpath(tx, "stores", "emps", b).Put([]byte("name"), strField(va))
+				}})
+		}
+	}
 	// the whole bucket of the (nullable) unique index over nick is gone: every holder of a nick is missing from it
 	{
 		var needles [][]string
@@ -427,9 +448,9 @@ func init() {
 	core.Register(&core.Property{
 		ID:    "C09",
 		Level: "exploration",
-		Rule: "consistent states reached through the API (random histories over schema K) must produce zero reports in check-only mode (read-only and writable transaction) and in fix mode; then a committed raw-write transaction injects a random subset (1-6) of " +
-			"corruptions from 24 classes (unique index missing / dangling / wrong-target / stale entry / the whole index bucket absent; set index missing entry / missing value key / dangling / non-holder entry / empty bucket; fk missing back-reference (one key, or the whole bucket absent) / dangling / non-matching back-reference, dangling reference nullable or not; " +
-			"links one-sided either side / dangling; duplicate unique values; null in a non-nullable unique field, fk-index field and fk-constraint field in three stored spellings). Oracle: every injected inconsistency is covered by a report naming its value and id(s), in View and Update check-only runs, which leave the whole-file dump unchanged and do not panic or fail; " +
+		Rule: "consistent states reached through the API (random histories over schema K) must produce zero reports in check-only mode (read-only and writable transaction; on every third case also from four goroutines at once, each in its own read transaction) and in fix mode; then a committed raw-write transaction injects a random subset (1-6) of " +
+			"corruptions from 25 classes (unique index missing / dangling / wrong-target / stale entry / the whole index bucket absent; set index missing entry / missing value key / dangling / non-holder entry / empty bucket; fk missing back-reference (one key, or the whole bucket absent) / dangling / non-matching back-reference, dangling reference nullable or not; " +
+			"links one-sided either side / dangling; duplicate unique values (with and without an index entry for the value); null in a non-nullable unique field, fk-index field and fk-constraint field in three stored spellings). Oracle: every injected inconsistency is covered by a report naming its value and id(s), in View and Update check-only runs, which leave the whole-file dump unchanged and do not panic or fail; " +
 			"one fix pass then leaves only the predicted unfixable reports on re-check and (when none is unfixable) a structural-monitor-clean database equal to the model. Every fifth case runs the fix pass inside the very transaction that damaged the indexes (cursors over buckets already written to in the transaction); dangling links, dangling index entries and dangling back-references come in runs of one to four neighbours, also next to a one-sided link of the same entity (whose repair, made from the other store, writes to the bucket the dangling links are then removed from). Soundness is also checked on a model-free schema: one parent with two sibling child stores, the second extended with a NON-nullable unique index, six ids so that runs of neighbours without data in it occur; after every operation whose raw scan finds the indexes mirroring the entities the check-only run (both transaction kinds) must report nothing and change nothing. non-trivial = distinct corruption-class subsets of size >= 2",
 		Assumptions: []string{"report matching is by mention of the index/field name, value and ids (wording not judged); extra reports on a corrupted database are not judged", "ref-counted link collections are not part of CheckIntegrity (not injected)"},
 		Plan: func(tier core.Tier, seed int64) int {
@@ -442,7 +463,7 @@ func init() {
 		Promises: func(core.Tier) map[string][]string {
 			return map[string][]string{"class": {"unique-missing", "unique-wrong-target", "unique-stale-value", "unique-dangling-entry", "set-missing-entry", "set-missing-value-key", "set-extra-entry-dangling",
 				"set-extra-entry-existing", "set-empty-value-bucket", "fk-missing-backref", "fk-extra-backref-dangling", "fk-extra-backref-nonmatching", "fk-dangling-dept", "fk-dangling-boss",
-				"link-one-sided-emp-side-removed", "link-one-sided-dept-side-removed", "link-dangling", "duplicate-unique-value", "null-in-non-nullable-unique", "null-in-non-nullable-fk-index", "null-in-non-nullable-fk-constraint", "fk-missing-backref-bucket", "unique-index-bucket-missing"}}
+				"link-one-sided-emp-side-removed", "link-one-sided-dept-side-removed", "link-dangling", "duplicate-unique-value", "null-in-non-nullable-unique", "null-in-non-nullable-fk-index", "null-in-non-nullable-fk-constraint", "fk-missing-backref-bucket", "unique-index-bucket-missing", "duplicate-unique-value-unindexed"}}
 		},
 		MinCounters: func(core.Tier) map[string]int64 {
 			return map[string]int64{"consistent_states_checked": 300, "corrupted_states": 300, "fix_converged_clean": 100, "fix_runs_inside_the_damaging_transaction": 50, "sibling_consistent_states_checked": 500, "extended_store_checked_over_a_run_of_parent_only_neighbours": 50}
@@ -489,6 +510,38 @@ func runC09(c *core.Ctx, idx int) {
 		if d := dumpDb(e); d.Hash() != d0.Hash() {
 			c.Violationf("C09 check-only changed a consistent database ("+mode+")", info, "diff: %v", dump.Diff(d0, d, nil, 6))
 			d0 = d
+		}
+	}
+	// several check-only runs at the same time, each in a read transaction of its own, on every third case
+	if idx%3 == 0 {
+		var wg sync.WaitGroup
+		var mu sync.Mutex
+		var all []string
+		for g := 0; g < 4; g++ {
+			wg.Add(1)
+			go func() {
+				defer wg.Done()
+				for k := 0; k < 3; k++ {
+					reps, err := runIntegrity(e, false, "view")
+					mu.Lock()
+					if err != nil {
+						all = append(all, "error: "+err.Error())
+					}
+					for _, rp := range reps {
+						all = append(all, "["+rp.Store+"] "+rp.Msg)
+					}
+					mu.Unlock()
+				}
+			}()
+		}
+		wg.Wait()
+		c.Eval()
+		c.Count("concurrent_check_only_runs", 12)
+		if len(all) > 0 {
+			c.Violationf("C09 concurrent check-only runs report on a consistent database: "+reportClass(all[0]), info, "%d reports from 4 x 3 concurrent runs: %v", len(all), all[:min(len(all), 4)])
+		}
+		if d := dumpDb(e); d.Hash() != d0.Hash() {
+			c.Violationf("C09 concurrent check-only runs changed a consistent database", info, "diff: %v", dump.Diff(d0, d, nil, 6))
 		}
 	}
 	if r.P(0.3) {
@@ -761,7 +814,7 @@ var c09Configs = []kmodel.Config{
 
 func family(class string) string {
 	switch class {
-	case "unique-missing", "unique-wrong-target", "null-in-non-nullable-unique", "duplicate-unique-value":
+	case "unique-missing", "unique-wrong-target", "null-in-non-nullable-unique", "duplicate-unique-value", "duplicate-unique-value-unindexed":
 		return "name"
 	case "fk-missing-backref", "fk-dangling-dept", "fk-extra-backref-nonmatching", "null-in-non-nullable-fk-index", "fk-missing-backref-bucket", "fk-extra-backref-dangling":
 		return "dept"
